@@ -140,6 +140,18 @@ func paths() []string {
 	return res
 }
 
+// cloneProbe: expressions added to a throw-away clone of every tree under test.
+var cloneProbe = []string{"/b/q1", "/b/q2", "/ab/q", "/b/q3/:z", "/c/**", "/b", "/:p0/q", "/a/q/q"}
+
+func disturbClone(t *radixtree.Tree[int], raw []string) {
+	cl := t.Clone()
+	for qi, extra := range cloneProbe {
+		_ = cl.Add(extra, 100+qi, radixtree.WithBacktracking[int](true))
+	}
+
+	_ = cl.Delete(raw[0], radixtree.ValueMatcherFunc[int](func(v int) bool { return v == 0 }))
+}
+
 type matcher struct{ truth []bool }
 
 func (m *matcher) Match(v int, _, _ []string) bool { return m.truth[v] }
@@ -393,6 +405,11 @@ func evalSet(c *engine.Ctx, raw []string, exprs []Expr, ps []string, pathMatch [
 			return
 		}
 
+		// copy-on-write isolation: a clone that is modified afterwards (further expressions that re-sort the static
+		// children, a deletion) and then thrown away - exactly what a rejected rule set load does - must not change
+		// what the original tree answers
+		disturbClone(t, raw)
+
 		for pi, p := range ps {
 			if !relevant[pi] {
 				continue
@@ -587,6 +604,8 @@ func replay(c *engine.Ctx, raw json.RawMessage) {
 
 		return
 	}
+
+	disturbClone(t, cs.Exprs)
 
 	got := lookup(t, cs.Truth, cs.Path)
 	want, matching := refLookup(exprs, cs.Flags, cs.Truth, cs.Path)
